@@ -418,6 +418,10 @@ class ProvRecord(object):
                 # Converting the dictionary into a list of tuples
                 # (i.e. attribute-value pairs)
                 attributes = attributes.items()
+            else:
+                # the pairs are gone through more than once below: keep those
+                # of a one-shot iterable
+                attributes = list(attributes)
 
             # Check if one of the attributes specifies that the current type
             # is a collection. In that case multiple attributes of the same
